@@ -144,10 +144,16 @@ theorem legacy_equiv_hasPresence (card : Nat) (isExt hasMsg inOneof : Bool) :
   simp only [hasPresence, legacyHasPresence, h2, h3]
   by_cases hc : card = cRepeated <;> cases isExt <;> cases hasMsg <;> cases inOneof <;> simp [hc]
 
-/-- IsPacked: for all cardinalities and kinds, when the `packed` option is absent, false, or put on a
-packable repeated field. -/
-theorem legacy_equiv_isPacked_partial (card kind : Nat) (packedOpt : Option Bool)
-    (h : packedOpt ≠ some true ∨ (card = cRepeated ∧ packableKind kind = true)) :
+/-- The condition `validateMessageDeclarations` / `validateExtensionDeclarations` now enforce (622c0ae:
+`fd.GetOptions().GetPacked() && !isPackable(f)` is an error): `[packed = true]` only on repeated fields of a packable
+kind. -/
+def packedOptionValid (card kind : Nat) (packedOpt : Option Bool) : Bool :=
+  !(packedOpt == some true && !(card == cRepeated && packableKind kind))
+
+/-- **legacy_equiv (IsPacked).** For all cardinalities, kinds and `packed` options that validation accepts, the
+proto2 / proto3 defaults give the pre-editions `IsPacked()`. -/
+theorem legacy_equiv_isPacked (card kind : Nat) (packedOpt : Option Bool)
+    (h : packedOptionValid card kind packedOpt = true) :
     isPacked card kind (fieldFeatures g2 Overrides.empty packedOpt) = legacyIsPacked 2 card kind packedOpt ∧
     isPacked card kind (fieldFeatures g3 Overrides.empty packedOpt) = legacyIsPacked 3 card kind packedOpt := by
   have h2 : g2.isPacked = false := by decide
@@ -164,20 +170,15 @@ theorem legacy_equiv_isPacked_partial (card kind : Nat) (packedOpt : Option Bool
       simp only [isPacked, fieldFeatures, legacyIsPacked]
       by_cases hc : card = cRepeated <;> cases hk : packableKind kind <;> simp [hc]
     | true =>
-      rcases h with h | ⟨hc, hk⟩
-      · exact absurd rfl h
-      · simp [isPacked, fieldFeatures, legacyIsPacked, hc, hk]
+      simp only [packedOptionValid, beq_self_eq_true, Bool.true_and, Bool.not_not, Bool.and_eq_true, beq_iff_eq] at h
+      simp [isPacked, fieldFeatures, legacyIsPacked, h.1, h.2]
 
-/- FULL STATEMENT (false of the current code — it is the root of DESIGN finding 13):
-   `∀ card kind packedOpt, isPacked card kind (fieldFeatures g2 Overrides.empty packedOpt) = legacyIsPacked 2 card kind packedOpt`.
-   Before editions `IsPacked()` returned the stored option as is, so `[packed = true]` on a repeated string made
-   `IsPacked()` true and `validateMessageDeclarations` rejected it (`f.IsPacked() && !isPackable(f)`); now
-   `IsPacked()` masks the option by kind and cardinality, the validation guard is dead and the schema is accepted. -/
-theorem legacy_equiv_isPacked_false :
-    ¬ ∀ card kind packedOpt,
-      isPacked card kind (fieldFeatures g2 Overrides.empty packedOpt) = legacyIsPacked 2 card kind packedOpt := by
-  intro h
-  exact absurd (h cRepeated kString (some true)) (by decide)
+/-- Outside that condition the accessor itself differs from the pre-editions one (`IsPacked()` masks the option by kind
+and cardinality; the pre-editions accessor returned the stored option) — which is why validation has to consult the
+option and not the accessor. A remark about the accessor, not an obligation: such schemas are rejected. -/
+theorem isPacked_masks_option :
+    isPacked cRepeated kString (fieldFeatures g2 Overrides.empty (some true)) = false ∧
+    legacyIsPacked 2 cRepeated kString (some true) = true := by decide
 
 theorem legacy_equiv_utf8_closed :
     enforceUTF8 g2 = legacyEnforceUTF8 2 ∧ enforceUTF8 g3 = legacyEnforceUTF8 3 ∧
@@ -221,44 +222,49 @@ theorem legacy_equiv :
       = [true, g3.isLegacyRequired, g3.isOpenEnum, g3.isPacked, g3.isUTF8Validated, g3.isDelimitedEncoded, g3.isJSONCompliant] := by
   refine ⟨by decide, by decide, by decide⟩
 
-/-! ### UTF-8 validation of extension fields (finding) -/
+/-! ### UTF-8 validation follows the resolved feature, for fields and extensions (c1ca555 + c7b40f5) -/
 
-/- FULL STATEMENT (false of the current code): `∀ ed isExt f, runtimeEnforceUTF8 ed isExt f = enforceUTF8 f`
-   i.e. the codecs validate UTF-8 exactly when the resolved `utf8_validation` is VERIFY.
-   `*filedesc.Extension` lacks the `EnforceUTF8()` method `strs.EnforceUTF8` looks for, so for an extension declared
-   in an editions file the resolved feature is ignored and UTF-8 is never validated. -/
-theorem runtime_utf8_false :
-    ¬ ∀ ed isExt f, runtimeEnforceUTF8 ed isExt f = enforceUTF8 f := by
+/-- the DESCRIPTOR accessor is the resolved feature for `*filedesc.Field` and `*filedesc.Extension` alike -/
+theorem descriptor_utf8 (f : GoFeatures) : descriptorEnforceUTF8 f = enforceUTF8 f := rfl
+
+/-- **runtime_utf8.** The codecs validate UTF-8 exactly when the resolved `utf8_validation` is VERIFY — for every
+edition, for message fields and for extension fields (`strs.EnforceUTF8` looks through the `ExtensionTypeDescriptor`
+wrapper). -/
+theorem runtime_utf8 (ed : Nat) (isExt : Bool) (f : GoFeatures) : runtimeEnforceUTF8 ed isExt f = enforceUTF8 f := rfl
+
+/-- in particular extensions of an edition-2023 file are validated by default, those of a proto2 file are not -/
+example : runtimeEnforceUTF8 edition2023 true g23 = true ∧ runtimeEnforceUTF8 editionProto2 true g2 = false := by decide
+
+/- Historical regression example (code before c1ca555/c7b40f5): extensions fell through to `Syntax() == Proto3`.
+   NOT a statement about the current code. -/
+namespace OldUtf8
+def runtimeEnforceUTF8 (edition : Nat) (isExtension : Bool) (f : GoFeatures) : Bool :=
+  if isExtension then edition == editionProto3 else f.isUTF8Validated
+theorem old_runtime_utf8_false : ¬ ∀ ed isExt f, OldUtf8.runtimeEnforceUTF8 ed isExt f = enforceUTF8 f := by
   intro h
   exact absurd (h edition2023 true g23) (by decide)
+end OldUtf8
 
-theorem runtime_utf8_partial (ed : Nat) (f : GoFeatures) : runtimeEnforceUTF8 ed false f = enforceUTF8 f := rfl
+/-! ### enum-level features: both constructions honour them (filedesc since e5f41ee) -/
 
-/-- … and extensions of proto2 / proto3 files behave as the edition defaults say. -/
-theorem runtime_utf8_ext_legacy :
-    runtimeEnforceUTF8 editionProto2 true g2 = enforceUTF8 g2 ∧ runtimeEnforceUTF8 editionProto3 true g3 = enforceUTF8 g3 := by
-  decide
+/-- **filedesc_enum_features.** An enum's resolved features are the nearest override INCLUDING its own, in the
+compact builder exactly as in protodesc: for all parents and overrides. -/
+theorem filedesc_enum_features (parent : GoFeatures) (ov : Overrides) :
+    filedescEnumFeatures parent ov = protodescEnumFeatures parent ov := rfl
 
-/-! ### enum-level features: protodesc honours them, internal/filedesc does not (finding) -/
+theorem filedesc_enum_isClosed (parent : FeatureSet) (ov : Overrides) :
+    isClosed (filedescEnumFeatures (view parent) ov) = !((ov.enumType.getD parent.enumType) == evOpen) := by
+  rw [filedesc_enum_features, protodescEnumFeatures, ← view_merge]
+  rfl
 
-/- FULL STATEMENT for the compact builder (false of the current code):
-   `∀ parent ov, filedescEnumFeatures parent ov = protodescEnumFeatures parent ov`
-   i.e. an enum's resolved features are the nearest override INCLUDING its own.  `(*Enum).unmarshalSeed` copies the
-   parent's features and never reads `EnumOptions.features`. -/
-theorem filedesc_enum_features_false :
-    ¬ ∀ parent ov, isClosed (filedescEnumFeatures parent ov) = isClosed (protodescEnumFeatures parent ov) := by
+/- Historical regression example (the code before e5f41ee): `(*Enum).unmarshalSeed` copied the parent's features
+and never read `EnumOptions.features`.  NOT a statement about the current code. -/
+namespace Old
+def filedescEnumFeatures (parent : GoFeatures) (_ov : Overrides) : GoFeatures := parent
+theorem old_filedesc_enum_features_false :
+    ¬ ∀ parent ov, isClosed (Old.filedescEnumFeatures parent ov) = isClosed (protodescEnumFeatures parent ov) := by
   intro h
   exact absurd (h {} { enumType := some evOpen }) (by decide)
-
-theorem filedesc_enum_features_partial (parent : GoFeatures) (ov : Overrides)
-    (h : ov.enumType = none ∧ ov.jsonFormat = none ∧ ov.goLegacyUnmarshalJsonEnum = none ∧ ov.goStripEnumPrefix = none ∧
-         ov.fieldPresence = none ∧ ov.repeatedFieldEncoding = none ∧ ov.utf8Validation = none ∧ ov.messageEncoding = none ∧
-         ov.goApiLevel = none) :
-    filedescEnumFeatures parent ov = protodescEnumFeatures parent ov := by
-  obtain ⟨h1, h2, h3, h4, h5, h6, h7, h8, h9⟩ := h
-  simp [filedescEnumFeatures, protodescEnumFeatures, mergeGo, h1, h2, h3, h4, h5, h6, h7, h8, h9]
-
-example : ∃ ov : Overrides, ov.enforceNamingStyle = some 1 ∧ filedescEnumFeatures {} ov = protodescEnumFeatures {} ov :=
-  ⟨{ enforceNamingStyle := some 1 }, rfl, rfl⟩
+end Old
 
 end C38
